@@ -202,6 +202,10 @@ def run_task(cfg):
                       'a zero distance maps to the maximal similarity')
             if fn == 'squash' and not ks:
                 check(facts, z3.Or(*[z3.Or(s < 0, s > 1) for s in st]), 'squashed values within [0, 1]')
+            if fn == 'squash' and ks:
+                # keep_sign: sign(x) * (f(|x|) - f(0)): non-negative inputs stay within [0, 1] (0 maps to 0), negative ones within [-1, 0]
+                check(facts, z3.Or(*[z3.Or(z3.And(d >= 0, z3.Or(s < 0, s > 1)), z3.And(d <= 0, z3.Or(s > 0, s < -1))) for d, s in zip(dv, st)]),
+                      'keep_sign: non-negative inputs map into [0, 1], non-positive ones into [-1, 0]')
             # documented formula for explicit parameters
             if explicit:
                 want = []
@@ -272,6 +276,9 @@ def replay(cex):
     if claim.startswith('monotone'):
         bad = any((d[i] <= d[j]) and ((s[i] < s[j] - tol) if fn == 'd2s' else (s[i] > s[j] + tol)) for i in range(size) for j in range(size))
         return {'reproduced': bool(bad), 'observed': s.tolist(), 'expected': 'monotone in ' + str(d.tolist())}
+    if claim.startswith('keep_sign'):
+        bad = any((d[i] >= 0 and (s[i] < -tol or s[i] > 1 + tol)) or (d[i] <= 0 and (s[i] > tol or s[i] < -1 - tol)) or np.isnan(s[i]) for i in range(size))
+        return {'reproduced': bool(bad), 'observed': s.tolist(), 'expected': 'sign kept, magnitude within [0, 1] for ' + str(d.tolist())}
     if 'within [0, 1]' in claim:
         bad = bool(np.any(s < -tol) or np.any(s > 1 + tol) or np.any(np.isnan(s)))
         return {'reproduced': bad, 'observed': s.tolist()}
